@@ -370,12 +370,22 @@ impl<'a, const D: usize> Rdp<'a, D> {
             return;
         }
 
-        let sp = SurfacePoint::new_normalize(self.points[i0], self.points[i1] - self.points[i0]);
+        let chord = self.points[i1] - self.points[i0];
+        let chord_length = chord.norm();
+        let sp = SurfacePoint::new_normalize(self.points[i0], chord);
         let mut max_dist = 0.0;
         let mut max_i = 0;
 
         for i in i0 + 1..i1 {
-            let dist = (sp.projection(&self.points[i]) - self.points[i]).norm();
+            // The distance is measured to the chord as a segment, not to the infinite line through
+            // it, so a vertex beyond the ends of the chord is measured to the nearest end. When the
+            // end points coincide (a closed curve) the chord degenerates to a point.
+            let dist = if chord_length < 1.0e-12 {
+                (self.points[i] - self.points[i0]).norm()
+            } else {
+                let t = sp.scalar_projection(&self.points[i]).clamp(0.0, chord_length);
+                (sp.at_distance(t) - self.points[i]).norm()
+            };
             if dist > max_dist {
                 max_dist = dist;
                 max_i = i;
